@@ -64,7 +64,7 @@ class Pool:
     def __init__(self, modname, n, extra_env=None):
         self.modname = modname
         env = dict(os.environ)
-        env.update({'PYTHONHASHSEED': '0', 'TZ': 'UTC', 'PYTHONDONTWRITEBYTECODE': '1',
+        env.update({'PYTHONHASHSEED': os.environ.get('VERIF_HASHSEED', '0'), 'TZ': 'UTC', 'PYTHONDONTWRITEBYTECODE': '1',
                     'PYTHONPATH': VERIF + os.pathsep + env.get('PYTHONPATH', '')})
         env.pop('VERIF_LOG', None)
         if extra_env:
@@ -278,6 +278,7 @@ def main(argv=None):
     ap.add_argument('--workers', type=int, default=None)
     ap.add_argument('--first', type=int, default=0, help='index of first run (to continue a sweep)')
     ap.add_argument('--no-evidence', action='store_true')
+    ap.add_argument('--merge-evidence', action='store_true', help='add this run to the evidence file another check of the same property has just written')
     ap.add_argument('--no-shrink', action='store_true')
     ap.add_argument('--property', help='judge this property instead of the check module\'s own (triage aid)')
     ap.add_argument('--survey', action='store_true', help='explore the whole budget, list every violation signature of every property, no shrinking, exit 0')
@@ -306,6 +307,12 @@ def main(argv=None):
     if args.replay:
         with open(args.replay) as f:
             rp = json.load(f)
+        if rp.get('check') and rp['check'] != args.check:
+            # a property can be served by more than one check module; the replay file knows which one produced it
+            args.check = rp['check']
+            spec = importlib.import_module('checks.' + args.check)
+            modname = 'checks.' + args.check
+            prop = rp.get('property', prop)
         extra = {'VERIF_LOG': args.log} if args.log else None
         pool = Pool(modname, 1, extra_env=extra)
         try:
@@ -475,7 +482,41 @@ def main(argv=None):
                 pass
             ev = {'property_id': prop, 'tier': tier, 'seed': base_seed, 'level': spec.LEVEL, 'coverage': cov,
                   'assumptions': spec.ASSUMPTIONS, 'wall_s': round(wall, 2), 'violations': len(new_viol)}
-            write_json(os.path.join(VERIF, 'evidence', '%s.json' % prop), ev)
+            evpath = os.path.join(VERIF, 'evidence', '%s.json' % prop)
+            if args.merge_evidence and os.path.exists(evpath):
+                try:
+                    prev = json.load(open(evpath))
+                    pc = prev['coverage']
+                    part_prev = pc.pop('parts', None) or [{'check': pc.get('check', '?'), 'evaluations': pc['evaluations'],
+                                                           'distinct_nontrivial': pc['distinct_nontrivial'], 'rule': pc['rule'],
+                                                           'wall_s': prev.get('wall_s')}]
+                    part_now = {'check': args.check, 'evaluations': cov['evaluations'],
+                                'distinct_nontrivial': cov['distinct_nontrivial'], 'rule': cov['rule'], 'wall_s': ev['wall_s'],
+                                'fired': cov['fired'], 'probes': cov['probes'], 'simulated_seconds': cov['simulated_seconds']}
+                    merged = dict(pc)
+                    merged['evaluations'] = pc['evaluations'] + cov['evaluations']
+                    merged['distinct_nontrivial'] = pc['distinct_nontrivial'] + cov['distinct_nontrivial']
+                    merged['rule'] = pc['rule'] + ' || ' + cov['rule']
+                    merged['samples'] = (pc.get('samples') or [])[:1] + (cov.get('samples') or [])[:1]
+                    merged['simulated_seconds'] = pc.get('simulated_seconds', 0) + cov['simulated_seconds']
+                    merged['kernel_steps'] = pc.get('kernel_steps', 0) + cov['kernel_steps']
+                    for k in ('fired', 'probes', 'other_counters'):
+                        d = dict(pc.get(k) or {})
+                        for a, b in (cov.get(k) or {}).items():
+                            d[a] = d.get(a, 0) + b
+                        merged[k] = d
+                    merged['real_components'] = sorted(set(pc.get('real_components', [])) | set(cov['real_components']))
+                    merged['stubbed_components'] = sorted(set(pc.get('stubbed_components', [])) | set(cov['stubbed_components']))
+                    merged['harness_errors'] = pc.get('harness_errors', 0) + cov['harness_errors']
+                    merged['parts'] = part_prev + [part_now]
+                    ev['coverage'] = merged
+                    ev['wall_s'] = round((prev.get('wall_s') or 0) + ev['wall_s'], 2)
+                    ev['violations'] = (prev.get('violations') or 0) + ev['violations']
+                    ev['assumptions'] = sorted(set(prev.get('assumptions') or []) | set(ev['assumptions']))
+                except Exception as e:
+                    log('could not merge evidence (%r); writing this run only' % (e,))
+            ev['coverage']['check'] = ev['coverage'].get('check', args.check)
+            write_json(evpath, ev)
         log('done: runs=%d distinct=%d vtime=%.0fs wall=%.1fs violations=%d known=%d harness_errors=%d rc=%d' % (
             stats['runs'], len(abstracts) or len(digests), stats['vtime'], wall, len(new_viol), len(known_hit),
             len(stats['harness_errors']), rc))
